@@ -325,6 +325,10 @@ def gen_data(rnd, n):
             out.append(Data(k, name, values=vals))
         elif k == "string":
             out.append(Data(k, name, string="".join(rnd.choice("Hello, World! abc:XYZ09") for _ in range(rnd.randint(0, 9)))))
+        elif rnd.random() < 0.25:
+            # a large reservation pushes the following variables across the 2 KiB / 4 KiB boundaries of the address
+            # (bit 11 set, carry into the upper part): the lui/addi split of la / load / store by name
+            out.append(Data(k, name, n=rnd.choice([500, 511, 512, 513, 1000, 1023, 1024, 1025, 1536])))
         else:
             out.append(Data(k, name, n=rnd.randint(0, 5)))
     return out
